@@ -109,6 +109,10 @@ pub struct Case {
     /// change that follows must still reach every nested object (also when it re-sets the value in force)
     #[serde(default)]
     pub nested_drift: bool,
+    /// consists: constructed around the LAST unit alone, the full set of units supplied afterwards through
+    /// `Consist::set_loco_vec` (everything the constructor derives from the units must follow)
+    #[serde(default)]
+    pub late_units: bool,
 }
 
 // ------------------------------------------------------------------------------------------------
@@ -206,7 +210,13 @@ pub fn build_consist(case: &Case) -> Consist {
     } else {
         PowerDistributionControlType::RESGreedy(altrios_core::consist::RESGreedy)
     };
-    Consist::new(locos, case.save_interval, pdct)
+    if case.late_units && locos.len() >= 2 {
+        let mut c = Consist::new(vec![locos[locos.len() - 1].clone()], case.save_interval, pdct);
+        c.set_loco_vec(locos);
+        c
+    } else {
+        Consist::new(locos, case.save_interval, pdct)
+    }
 }
 
 // ------------------------------------------------------------------------------------------------
@@ -539,6 +549,7 @@ pub fn generate(rng: &mut Rng, focus: &str, thorough: bool) -> Case {
         shipped_walk: !has_crash && rng.chance(0.5),
         twin: focus == "C17",
         nested_drift,
+        late_units: as_consist && rng.chance(0.08),
     }
 }
 
@@ -669,6 +680,10 @@ fn edrv_of(l: &Locomotive) -> &ElectricDrivetrain {
         PowertrainType::HybridLoco(h) => &h.edrv,
         _ => unreachable!("dummy units are not generated"),
     }
+}
+/// rated power of a unit's electric drivetrain (its dynamic-braking capability)
+pub fn edrv_rating(l: &Locomotive) -> f64 {
+    edrv_of(l).pwr_out_max.value
 }
 fn is_bel(l: &Locomotive) -> bool {
     matches!(l.loco_type, PowertrainType::BatteryElectricLoco(_))
